@@ -53,6 +53,7 @@ type Stmt struct {
 	K     string `json:"k"`
 	Asset string `json:"asset,omitempty"`
 	Amt   int    `json:"amt,omitempty"`
+	AmtBig string `json:"amtbig,omitempty"` // harness-side: amount beyond the spec's integers (scaled family-A runs)
 	Ba    string `json:"ba,omitempty"`
 	Src   *Src   `json:"src,omitempty"`
 	Dst   *Dst   `json:"dst,omitempty"`
@@ -104,12 +105,21 @@ type Expected struct {
 	Sneg    bool       `json:"sneg"`
 }
 
+type ScaleInfo struct {
+	Den int       `json:"den"`
+	P1  []Posting `json:"p1"`
+	P2  []Posting `json:"p2"`
+}
+
 type Case struct {
 	Fam  string   `json:"fam"`
 	I    int      `json:"i,omitempty"`
 	Prog []Stmt   `json:"prog"`
 	Bal  Balances `json:"bal"`
 	Exp  Expected `json:"exp"`
+	// family A (C24 through scripts): postings for amounts D+amt (p1) and 2D+amt (p2); the outcome is
+	// affine in the multiplier (theorem ThmScriptScale of MC_Numscript.tla)
+	Scale *ScaleInfo `json:"scale,omitempty"`
 	// harness-side switches (negative controls / replays), never produced by TLC
 	Inject string `json:"inject,omitempty"`
 }
